@@ -77,6 +77,7 @@ def run_case(case):
             if isinstance(v, int):
                 stats[k] = stats.get(k, 0) + v
         violations += B["w"].violations
+        order_digests |= B["w"].pool_orders
         keys = dict(mode=mode if mode != "poolint" else f"pool=int", workers=(pool or {}).get("workers") if mode == "poolint" else None)
         if case.get("scenario") == "pool_death":
             fired = B["w"].stats.get("pool.worker_death", 0)
@@ -103,7 +104,9 @@ def run_case(case):
         stats["twins_compared"] = stats.get("twins_compared", 0) + 1
     stats["calls_checks"] = A["calls_checked"]
     stats["iterations"] = len(A["digests"])
-    return dict(violations=violations, stats=stats, probes=probes, digest=json.dumps([A["rng"], A["digests"][-1:] ]), distinct_key=scenario.cfg_class(case) + f"/W{case['W']}",
+    stats["pool.distinct_completion_orders"] = len(order_digests)
+    cc = scenario.cfg_class(case)
+    return dict(violations=violations, stats=stats, probes=probes, digest=json.dumps([A["rng"], A["digests"][-1:] ]), classes=[cc + f"/W{case['W']}"] + [cc + "|order:" + o for o in sorted(order_digests)[:40]],
                 nontrivial=stats.get("pool.reordered_maps", 0) > 0,
                 sample=dict(cfg_class=scenario.cfg_class(case), W=case["W"], Wint=case["Wint"], iterations=len(A["digests"]), reordered_maps=stats.get("pool.reordered_maps", 0), pool_maps=stats.get("pool.maps", 0)))
 
